@@ -478,6 +478,7 @@ type Env struct {
 // Options of NewEnv.
 type Options struct {
 	Shards       int
+	Keep         bool   // do not wipe the directories: a restarted controller over what the previous one left
 	InlineReload bool   // no reload queue: HAProxyUpdate itself reloads (--reload-interval=0, the default)
 	MasterSocket string // external haproxy reached through this master socket
 }
@@ -494,7 +495,9 @@ func NewEnv(base, name string, o Options) *Env {
 		panic(err)
 	}
 	root := name
-	_ = os.RemoveAll(root)
+	if !o.Keep {
+		_ = os.RemoveAll(root)
+	}
 	cfg := filepath.Join(root, "cfg")
 	maps := filepath.Join(root, "maps")
 	for _, d := range []string{cfg, maps, filepath.Join(cfg, "errorfiles"), filepath.Join(cfg, "lua")} {
